@@ -2,6 +2,8 @@ import abc
 import typing
 import warnings
 
+from collections import defaultdict, deque
+
 import numpy as np
 
 from hpotk.graph import OntologyGraph, GraphAware
@@ -282,7 +284,12 @@ class HierarchicalSorting(TermIdSorting, metaclass=abc.ABCMeta):
         """
         assert len(source) == len(ordered)
 
-        return tuple(source.index(s) for s in ordered)
+        # A term ID can be present in `source` several times. Each position must be used exactly once.
+        positions = defaultdict(deque)
+        for idx, term_id in enumerate(source):
+            positions[term_id].append(idx)
+
+        return tuple(positions[term_id].popleft() for term_id in ordered)
 
 
 class HierarchicalEdgeTermIdSorting(HierarchicalSorting):
